@@ -88,3 +88,34 @@ func VerifC17_Fixed() {
 	zzverif.Note(call, " migrates to ", migrated, " = ", out)
 	zzverif.Assert(everr == nil && out == want, "the migrated FIXED call does not evaluate to the text the legacy call denotes")
 }
+
+// VerifC17_TextAfterExpression: "text outside expressions is unchanged" and
+// the expression keeps its meaning when text follows it directly: the legacy
+// template "@(flow.age)" followed by two arbitrary printable ASCII characters
+// (letters, digits, periods, underscores, spaces, punctuation — no '@', which
+// would start another expression).  The migrated template evaluates, with the
+// result age = 42, to "42" followed by exactly those characters: the migrated
+// reference may not swallow them.
+// cover: name-characters-follow, period-follows, other-text-follows
+func VerifC17_TextAfterExpression() {
+	tail := zzverif.String("tail", 2)
+	zzverif.Assume(len(tail) == 2)
+	for k := 0; k < len(tail); k++ {
+		zzverif.Assume(tail[k] >= ' ' && tail[k] < 0x7f && tail[k] != '@' && tail[k] != '(' && tail[k] != '\\')
+	}
+	c := tail[0]
+	switch {
+	case c == '_' || (c >= 'a' && c <= 'z') || (c >= 'A' && c <= 'Z') || (c >= '0' && c <= '9'):
+		zzverif.Cover("name-characters-follow")
+	case c == '.':
+		zzverif.Cover("period-follows")
+	default:
+		zzverif.Cover("other-text-follows")
+	}
+	migrated, err := MigrateTemplate("@(flow.age)"+tail, nil)
+	zzverif.Assert(err == nil, "a legacy template could not be migrated")
+	ctx := types.NewXObject(map[string]types.XValue{"results": types.NewXObject(map[string]types.XValue{"age": types.NewXNumberFromInt(42)})})
+	out, _, _ := excellent.NewEvaluator().Template(envs.NewBuilder().Build(), ctx, migrated, nil)
+	zzverif.Note("@(flow.age)", tail, " migrates to ", migrated, " = ", out)
+	zzverif.Assert(out == "42"+tail, "text that follows an expression was swallowed by the migrated reference or changed")
+}
